@@ -174,7 +174,7 @@ class Main(Suite):
     name = "main"
     go_cmd = "c03"
     coq_imports = "From GoGit Require Import Model.ObjLines Model.Ident Model.Commit Model.Tag Model.SigPayload Spec.GitSig Spec.SigGuards."
-    quick_n = 500
+    quick_n = 340
     thorough_n = 3000
 
     def gen(self, rng, n, tier):
